@@ -30,13 +30,19 @@ def harness(sym):
         started_seen = {r: False for r in RUNS}
         trace = []
 
+        counts = {r: (0, 0) for r in RUNS}
+
         def check_upper(at, r_evt):
+            # evaluated at the event that changes a count (a surplus row stays; it is reported where it is created)
             for r in RUNS:
                 npl, nrr = len(w.plot_logs(r)), len(w.recent_runs(r))
-                sym.check(npl <= 1, f"plot-logs>1|at={at}|run-was={before.get(r_evt, '-') if r == r_evt else 'other'}",
-                          f"{trace}: run {r} has {npl} plot logs")
-                sym.check(nrr <= 1, f"recent-runs>1|at={at}|run-was={before.get(r_evt, '-') if r == r_evt else 'other'}",
-                          f"{trace}: run {r} has {nrr} recent-run records")
+                was = (before.get(r_evt, '-') if r == r_evt else 'other')
+                if npl != counts[r][0]:
+                    sym.check(npl <= 1, f"plot-logs>1|at={at}|run-was={was}", f"{trace}: run {r} has {npl} plot logs")
+                if nrr != counts[r][1]:
+                    sym.check(nrr <= 1, f"recent-runs>1|at={at}|run-was={was}", f"{trace}: run {r} has {nrr} recent-run records")
+                counts[r] = (npl, nrr)
+            sym.reach()
 
         for i in range(n):
             ev = prefix[i] if i < len(prefix) else sym.choice(f"ev{i}", EVENTS)
@@ -103,3 +109,10 @@ OBLIGATIONS = [Obligation(
         "every registration is followed by the engine's UodInfoMsg",
     ],
 )]
+
+MANIFEST = {
+    "level": "model_checking",
+    "text": "Bounded exhaustive exploration (CrossHair/z3 path enumeration) of the real message handlers and FromEngine.run_started / run_stopped / engine_disconnected / register_engine_data with the repositories' real store methods over an in-memory session: every history of RunStarted/RunStopped messages for two run ids (duplicated, resent, reordered) and disconnect/re-registration within the bound is executed; after every event the PlotLog and RecentRun rows per run id are counted (never more than one; exactly one once the run was started and stopped).",
+    "note": "The inputs are discrete event selectors, so one path = one history. Trusted: CrossHair's int model, z3. The SQLAlchemy session / SQLite are replaced by an in-memory row store (look-ups answered with first-row / all-rows semantics), ORM row classes by plain records, publishers and asyncio.create_task by no-ops; one engine, two run ids; failing commits and longer histories are outside the claim.",
+    "technique": "symbolic execution of the real code (CrossHair + z3), bounded exhaustive over message histories, counterexample replay",
+}
